@@ -1,0 +1,234 @@
+//go:build verif
+
+// Contracts for the generated bindings of this package (property C05), derived mechanically by
+// /verif/tools/gencontracts.py from the generated source; checked by /verif/govc. Comments only.
+
+package authf
+
+//@ func (*BasicAuthInfo).ResetDefault
+//@   requires st != nil
+//@   modifies *st
+//@   safety [C05]
+//
+//@ func (*BasicAuthInfo).ReadFrom
+//@   requires st != nil && validR(readBuf)
+//@   let p0 = readBuf.buf.i
+//@   let allocbudget = 256 * len(readBuf.buf.src)
+//@   modifies *st, readBuf.buf.i, readBuf.depth
+//@   allocates
+//@   ensures [C05] readBuf.buf.i >= p0
+//@   ensures [C05] validR(readBuf)
+//@   safety [C05]
+//
+//@ func (*BasicAuthInfo).ReadBlock
+//@   requires st != nil && validR(readBuf)
+//@   let p0 = readBuf.buf.i
+//@   let allocbudget = 256 * len(readBuf.buf.src)
+//@   modifies *st, readBuf.buf.i, readBuf.depth
+//@   allocates
+//@   ensures [C05] readBuf.buf.i >= p0
+//@   ensures [C05] validR(readBuf)
+//@   safety [C05]
+//
+//@ func (*BasicAuthPackage).ResetDefault
+//@   requires st != nil
+//@   modifies *st
+//@   safety [C05]
+//
+//@ func (*BasicAuthPackage).ReadFrom
+//@   requires st != nil && validR(readBuf)
+//@   let p0 = readBuf.buf.i
+//@   let allocbudget = 256 * len(readBuf.buf.src)
+//@   modifies *st, readBuf.buf.i, readBuf.depth
+//@   allocates
+//@   ensures [C05] readBuf.buf.i >= p0
+//@   ensures [C05] validR(readBuf)
+//@   safety [C05]
+//
+//@ func (*BasicAuthPackage).ReadBlock
+//@   requires st != nil && validR(readBuf)
+//@   let p0 = readBuf.buf.i
+//@   let allocbudget = 256 * len(readBuf.buf.src)
+//@   modifies *st, readBuf.buf.i, readBuf.depth
+//@   allocates
+//@   ensures [C05] readBuf.buf.i >= p0
+//@   ensures [C05] validR(readBuf)
+//@   safety [C05]
+//
+//@ func (*TokenKey).ResetDefault
+//@   requires st != nil
+//@   modifies *st
+//@   safety [C05]
+//
+//@ func (*TokenKey).ReadFrom
+//@   requires st != nil && validR(readBuf)
+//@   let p0 = readBuf.buf.i
+//@   let allocbudget = 256 * len(readBuf.buf.src)
+//@   modifies *st, readBuf.buf.i, readBuf.depth
+//@   allocates
+//@   ensures [C05] readBuf.buf.i >= p0
+//@   ensures [C05] validR(readBuf)
+//@   safety [C05]
+//
+//@ func (*TokenKey).ReadBlock
+//@   requires st != nil && validR(readBuf)
+//@   let p0 = readBuf.buf.i
+//@   let allocbudget = 256 * len(readBuf.buf.src)
+//@   modifies *st, readBuf.buf.i, readBuf.depth
+//@   allocates
+//@   ensures [C05] readBuf.buf.i >= p0
+//@   ensures [C05] validR(readBuf)
+//@   safety [C05]
+//
+//@ func (*AuthRequest).ResetDefault
+//@   requires st != nil
+//@   modifies *st
+//@   safety [C05]
+//
+//@ func (*AuthRequest).ReadFrom
+//@   requires st != nil && validR(readBuf)
+//@   let p0 = readBuf.buf.i
+//@   let allocbudget = 256 * len(readBuf.buf.src)
+//@   modifies *st, readBuf.buf.i, readBuf.depth
+//@   allocates
+//@   ensures [C05] readBuf.buf.i >= p0
+//@   ensures [C05] validR(readBuf)
+//@   safety [C05]
+//
+//@ func (*AuthRequest).ReadBlock
+//@   requires st != nil && validR(readBuf)
+//@   let p0 = readBuf.buf.i
+//@   let allocbudget = 256 * len(readBuf.buf.src)
+//@   modifies *st, readBuf.buf.i, readBuf.depth
+//@   allocates
+//@   ensures [C05] readBuf.buf.i >= p0
+//@   ensures [C05] validR(readBuf)
+//@   safety [C05]
+//
+//@ func (*TokenRequest).ResetDefault
+//@   requires st != nil
+//@   modifies *st
+//@   safety [C05]
+//
+//@ func (*TokenRequest).ReadFrom
+//@   requires st != nil && validR(readBuf)
+//@   let p0 = readBuf.buf.i
+//@   let allocbudget = 256 * len(readBuf.buf.src)
+//@   modifies *st, readBuf.buf.i, readBuf.depth
+//@   allocates
+//@   ensures [C05] readBuf.buf.i >= p0
+//@   ensures [C05] validR(readBuf)
+//@   loop 0 modifies elems(st.VObjName), readBuf.buf.i, readBuf.depth
+//@   loop 0 invariant [C05] validR(readBuf) && readBuf.buf.i >= p0 && st != nil && len(st.VObjName) == length
+//@   safety [C05]
+//
+//@ func (*TokenRequest).ReadBlock
+//@   requires st != nil && validR(readBuf)
+//@   let p0 = readBuf.buf.i
+//@   let allocbudget = 256 * len(readBuf.buf.src)
+//@   modifies *st, readBuf.buf.i, readBuf.depth
+//@   allocates
+//@   ensures [C05] readBuf.buf.i >= p0
+//@   ensures [C05] validR(readBuf)
+//@   safety [C05]
+//
+//@ func (*TokenResponse).ResetDefault
+//@   requires st != nil
+//@   modifies *st
+//@   safety [C05]
+//
+//@ func (*TokenResponse).ReadFrom
+//@   requires st != nil && validR(readBuf)
+//@   let p0 = readBuf.buf.i
+//@   let allocbudget = 256 * len(readBuf.buf.src)
+//@   modifies *st, readBuf.buf.i, readBuf.depth
+//@   allocates
+//@   ensures [C05] readBuf.buf.i >= p0
+//@   ensures [C05] validR(readBuf)
+//@   loop 0 invariant [C05] validR(readBuf) && readBuf.buf.i >= p0 && st != nil && st.MTokens != nil
+//@   safety [C05]
+//
+//@ func (*TokenResponse).ReadBlock
+//@   requires st != nil && validR(readBuf)
+//@   let p0 = readBuf.buf.i
+//@   let allocbudget = 256 * len(readBuf.buf.src)
+//@   modifies *st, readBuf.buf.i, readBuf.depth
+//@   allocates
+//@   ensures [C05] readBuf.buf.i >= p0
+//@   ensures [C05] validR(readBuf)
+//@   safety [C05]
+//
+//@ func (*ApplyTokenRequest).ResetDefault
+//@   requires st != nil
+//@   modifies *st
+//@   safety [C05]
+//
+//@ func (*ApplyTokenRequest).ReadFrom
+//@   requires st != nil && validR(readBuf)
+//@   let p0 = readBuf.buf.i
+//@   let allocbudget = 256 * len(readBuf.buf.src)
+//@   modifies *st, readBuf.buf.i, readBuf.depth
+//@   allocates
+//@   ensures [C05] readBuf.buf.i >= p0
+//@   ensures [C05] validR(readBuf)
+//@   safety [C05]
+//
+//@ func (*ApplyTokenRequest).ReadBlock
+//@   requires st != nil && validR(readBuf)
+//@   let p0 = readBuf.buf.i
+//@   let allocbudget = 256 * len(readBuf.buf.src)
+//@   modifies *st, readBuf.buf.i, readBuf.depth
+//@   allocates
+//@   ensures [C05] readBuf.buf.i >= p0
+//@   ensures [C05] validR(readBuf)
+//@   safety [C05]
+//
+//@ func (*ApplyTokenResponse).ResetDefault
+//@   requires st != nil
+//@   modifies *st
+//@   safety [C05]
+//
+//@ func (*ApplyTokenResponse).ReadFrom
+//@   requires st != nil && validR(readBuf)
+//@   let p0 = readBuf.buf.i
+//@   let allocbudget = 256 * len(readBuf.buf.src)
+//@   modifies *st, readBuf.buf.i, readBuf.depth
+//@   allocates
+//@   ensures [C05] readBuf.buf.i >= p0
+//@   ensures [C05] validR(readBuf)
+//@   safety [C05]
+//
+//@ func (*ApplyTokenResponse).ReadBlock
+//@   requires st != nil && validR(readBuf)
+//@   let p0 = readBuf.buf.i
+//@   let allocbudget = 256 * len(readBuf.buf.src)
+//@   modifies *st, readBuf.buf.i, readBuf.depth
+//@   allocates
+//@   ensures [C05] readBuf.buf.i >= p0
+//@   ensures [C05] validR(readBuf)
+//@   safety [C05]
+//
+//@ func (*DeleteTokenRequest).ResetDefault
+//@   requires st != nil
+//@   modifies *st
+//@   safety [C05]
+//
+//@ func (*DeleteTokenRequest).ReadFrom
+//@   requires st != nil && validR(readBuf)
+//@   let p0 = readBuf.buf.i
+//@   let allocbudget = 256 * len(readBuf.buf.src)
+//@   modifies *st, readBuf.buf.i, readBuf.depth
+//@   allocates
+//@   ensures [C05] readBuf.buf.i >= p0
+//@   ensures [C05] validR(readBuf)
+//@   safety [C05]
+//
+//@ func (*DeleteTokenRequest).ReadBlock
+//@   requires st != nil && validR(readBuf)
+//@   let p0 = readBuf.buf.i
+//@   let allocbudget = 256 * len(readBuf.buf.src)
+//@   modifies *st, readBuf.buf.i, readBuf.depth
+//@   allocates
+//@   ensures [C05] readBuf.buf.i >= p0
+//@   ensures [C05] validR(readBuf)
+//@   safety [C05]
